@@ -17,11 +17,61 @@ def _translate(smt: str) -> str:
     # z3 splits seq.nth into an in-bounds part and an unspecified part; cvc5's seq.nth is total with an
     # unspecified (but functional) value out of bounds, which is the same thing
     smt = smt.replace("seq.nth_u", "seq.nth").replace("seq.nth_i", "seq.nth")
+    smt = _rewrite_pb(smt)
     smt = smt.replace("'", "_prime")  # z3 accepts ' inside simple symbols, SMT-LIB does not
     smt = re.sub(r"\(declare-fun (\S+) \(\) ", r"(declare-const \1 ", smt)
     if "(set-logic" not in smt:
         smt = "(set-logic ALL)\n" + smt
     return smt
+
+
+def _split_args(text, i):
+    """text[i] is just after the operator's closing paren: returns (list of balanced argument strings, index of the
+    closing paren of the application)"""
+    args, depth, cur = [], 0, ""
+    while i < len(text):
+        ch = text[i]
+        if ch == "(":
+            depth += 1
+            cur += ch
+        elif ch == ")":
+            if depth == 0:
+                if cur.strip():
+                    args.append(cur.strip())
+                return args, i
+            depth -= 1
+            cur += ch
+            if depth == 0:
+                args.append(cur.strip())
+                cur = ""
+        elif ch.isspace() and depth == 0:
+            if cur.strip():
+                args.append(cur.strip())
+            cur = ""
+        else:
+            cur += ch
+        i += 1
+    raise ValueError("unbalanced")
+
+
+def _rewrite_pb(smt: str) -> str:
+    """z3's pseudo-boolean operators ((_ pbeq k c1..cn) x1..xn), pble, pbge, at-most, at-least as linear integer
+    arithmetic over (ite xi ci 0), which every SMT-LIB solver reads"""
+    rx = re.compile(r"\(\(_ (pbeq|pble|pbge|at-most|at-least)((?: -?\d+)+)\)")
+    while True:
+        m = rx.search(smt)
+        if not m:
+            return smt
+        op = m.group(1)
+        nums = [int(x) for x in m.group(2).split()]
+        args, end = _split_args(smt, m.end())
+        if op in ("at-most", "at-least"):
+            k, coeffs = nums[0], [1] * len(args)
+        else:
+            k, coeffs = nums[0], nums[1:]
+        total = "(+ 0 " + " ".join(f"(ite {a} {c} 0)" for a, c in zip(args, coeffs)) + ")"
+        rel = {"pbeq": "=", "pble": "<=", "at-most": "<=", "pbge": ">=", "at-least": ">="}[op]
+        smt = smt[: m.start()] + f"({rel} {total} {k})" + smt[end + 1:]
 
 
 def cvc5_check(smt: str):
